@@ -57,6 +57,11 @@ def main():
         {"key": "dropped", "log": [e for e in GOOD if e != resp(4)], "nids": 5},
         {"key": "duplicated", "log": GOOD[:-1] + [resp(4), {"e": "quiesce"}], "nids": 5},
         {"key": "orphan", "log": GOOD[:-1] + [resp(5), {"e": "quiesce"}], "nids": 5},
+        # a cancel that arrives after the result (entry still registered) is answered as well
+        {"key": "late-cancel-answered", "log": [GOOD[0], req(1), resp(1), {"e": "csend", "m": {"k": "cancel", "id": 1, "cls": "-"}},
+                                                resp(1, "err-32800"), {"e": "quiesce"}], "nids": 5},
+        {"key": "late-cancel-ignored", "log": [GOOD[0], req(1), resp(1), {"e": "csend", "m": {"k": "cancel", "id": 1, "cls": "-"}},
+                                               {"e": "quiesce"}], "nids": 5},
         # an unknown method answered as if it had been dispatched and cancelled: no branch of the code does that
         {"key": "corrupted", "log": [resp(3, "err-32800") if e == resp(3, "err-32601") else e for e in GOOD], "nids": 5},
     ]
@@ -73,6 +78,11 @@ def main():
     d = ids("duplicated")
     if not d or d[4]["n"] != 2 or d[4]["how"] != "duplicate":
         fails.append("duplicate response not flagged")
+    d = ids("late-cancel-answered")
+    if not d or d[1]["n"] != 2 or d[1]["how"] != "duplicate":
+        fails.append("second answer by a late cancel not flagged")
+    if not v.get("late-cancel-ignored") or not v["late-cancel-ignored"][0]["exactlyOne"]:
+        fails.append("late cancel without a second answer not accepted")
     d = ids("orphan")
     if not d or d.get(5, {}).get("how") != "orphan":
         fails.append("orphan response not flagged")
